@@ -131,7 +131,7 @@ Qed.
 Lemma cmp_pin_refl x io p :
   (forall i, In i io -> asg_ok i) -> wf_pin io p = true -> cmp_pin x x io io p p = Accept.
 Proof.
-  intros Hio Hp. destruct p as [q b|[n|] q b| |]; cbn in Hp; try discriminate.
+  intros Hio Hp. destruct p as [q b|[n|] q b| | |]; cbn in Hp; try discriminate.
   - unfold cmp_pin. cbn. apply inner_equiv_refl.
   - unfold cmp_pin. cbn. destruct (find (has_name i_name n) io) as [i|] eqn:Ef; [|discriminate].
     destruct (i_ref i) as [r|]; [|discriminate].
